@@ -83,6 +83,21 @@ def r_reset(ctx):
     else:
         ctx.ob("R-RESET", "PEP.__init__::reset-first", True, "PEP.__init__ starts by calling %s" % reset_fn.name, loc(init, first))
     ctx.unit(qualname(reset_fn))
+    # who may call it: the constructor of the problem object, first thing -- a reset at any other moment (a finaliser, a solve, an accessor) wipes
+    # the registries and counters of the model that is being written at that moment
+    others = []
+    for f0 in repo.all_functions():
+        for c0 in ast.walk(f0):
+            if isinstance(c0, ast.Call) and call_name(c0) == reset_fn.name and not (f0 is init and common.stmt_of(c0) is first):
+                others.append((f0, c0))
+            elif isinstance(c0, ast.Attribute) and c0.attr == reset_fn.name and isinstance(c0.ctx, ast.Load) and not isinstance(getattr(c0, "_parent", None), ast.Call) \
+                    and f0 is not reset_fn:
+                others.append((f0, c0))          # handed over as a callback (atexit, weakref.finalize, ...)
+    ctx.ob("R-RESET", "PEP.%s::called by the constructor only" % reset_fn.name, not others,
+           "the only call site is the first statement of PEP.__init__" if not others else
+           "%s also calls / registers the reset routine: class-level registries and counters are wiped at a moment that depends on the history of the "
+           "process (object finalisation, an earlier model's life time), while another model may be under construction" % qualname(others[0][0]),
+           loc(others[0][0], others[0][1]) if others else loc(reset_fn, reset_fn))
     # the reset routine is straight-line: no early exit, no condition
     pc = flow.path_counts(reset_fn.body, lambda n: False)
     def literal_loop(x):
